@@ -218,24 +218,12 @@ theorem compare_fields (s : P2P) :
     simp only
     have key : ∀ (l : List (Nat × Endpoint)) (a : P2P), P2P.SameCore s a ∧ a.outgoingLocalInputs = s.outgoingLocalInputs →
         P2P.SameCore s (l.foldl (fun s (p : Nat × Endpoint) =>
-          let (evs, checked) := p.2.pendingChecksums.foldl (fun (acc : List Event × List Int) (q : Int × Nat) =>
-            if q.1 ≥ s.sync.lastConfirmedFrame then (acc.1, acc.2)
-            else match alookup q.1 s.localChecksumHistory with
-              | none => (acc.1, acc.2)
-              | some lc =>
-                ((if lc != q.2 then acc.1 ++ [Event.desyncDetected q.1 lc q.2 p.2.peerAddr] else acc.1), acc.2 ++ [q.1]))
-            (([] : List Event), ([] : List Int))
+          let (evs, checked) := P2P.comparePending s.sync.lastConfirmedFrame s.localChecksumHistory p.2.peerAddr p.2.pendingChecksums
           let e' := { p.2 with pendingChecksums := p.2.pendingChecksums.filter fun q => !checked.contains q.1 }
           { s with eventQueue := s.eventQueue ++ evs,
                    remotes := s.remotes.map fun (a', x) => if a' == p.1 then (a', e') else (a', x) }) a) ∧
         (l.foldl (fun s (p : Nat × Endpoint) =>
-          let (evs, checked) := p.2.pendingChecksums.foldl (fun (acc : List Event × List Int) (q : Int × Nat) =>
-            if q.1 ≥ s.sync.lastConfirmedFrame then (acc.1, acc.2)
-            else match alookup q.1 s.localChecksumHistory with
-              | none => (acc.1, acc.2)
-              | some lc =>
-                ((if lc != q.2 then acc.1 ++ [Event.desyncDetected q.1 lc q.2 p.2.peerAddr] else acc.1), acc.2 ++ [q.1]))
-            (([] : List Event), ([] : List Int))
+          let (evs, checked) := P2P.comparePending s.sync.lastConfirmedFrame s.localChecksumHistory p.2.peerAddr p.2.pendingChecksums
           let e' := { p.2 with pendingChecksums := p.2.pendingChecksums.filter fun q => !checked.contains q.1 }
           { s with eventQueue := s.eventQueue ++ evs,
                    remotes := s.remotes.map fun (a', x) => if a' == p.1 then (a', e') else (a', x) }) a).outgoingLocalInputs
@@ -264,13 +252,7 @@ theorem compare_inv (P : P2P → Prop)
     simp only
     have key : ∀ (l : List (Nat × Endpoint)) (a : P2P), P a →
         P (l.foldl (fun s (p : Nat × Endpoint) =>
-          let (evs, checked) := p.2.pendingChecksums.foldl (fun (acc : List Event × List Int) (q : Int × Nat) =>
-            if q.1 ≥ s.sync.lastConfirmedFrame then (acc.1, acc.2)
-            else match alookup q.1 s.localChecksumHistory with
-              | none => (acc.1, acc.2)
-              | some lc =>
-                ((if lc != q.2 then acc.1 ++ [Event.desyncDetected q.1 lc q.2 p.2.peerAddr] else acc.1), acc.2 ++ [q.1]))
-            (([] : List Event), ([] : List Int))
+          let (evs, checked) := P2P.comparePending s.sync.lastConfirmedFrame s.localChecksumHistory p.2.peerAddr p.2.pendingChecksums
           let e' := { p.2 with pendingChecksums := p.2.pendingChecksums.filter fun q => !checked.contains q.1 }
           { s with eventQueue := s.eventQueue ++ evs,
                    remotes := s.remotes.map fun (a', x) => if a' == p.1 then (a', e') else (a', x) }) a) := by
